@@ -133,12 +133,12 @@ func FamilyDirCount() []Spec {
 var NameSets = [][]string{
 	{"abc", "ABD"}, // case-sensitive and case-insensitive order differ
 	{"Zeta", "alph", "BETA", "gamm"},
-	{"aaaaaaaaaaaaaaaaa", "ZZZZZZZZZZZZZZZZZ", "\x05digitalsignaturf", "\x05DIGITALSIGNATURD"},                               // 17 units: neighbours of \x05DigitalSignature
-	{"aaaaaaaaaaaaaaaaaaaaaa", "ZZZZZZZZZZZZZZZZZZZZZZ", "\x05msidigitalsignatureey", "\x05MSIDIGITALSIGNATUREEW"},           // 22 units: neighbours of \x05MsiDigitalSignatureEx
-	{"ThirtyOneCharactersLongName-001", "thirtyonecharacterslongname-000", "THIRTYONECHARACTERSLONGNAME-002"}, // 31 units
+	{"aaaaaaaaaaaaaaaaa", "ZZZZZZZZZZZZZZZZZ", "\x05digitalsignaturf", "\x05DIGITALSIGNATURD"},                     // 17 units: neighbours of \x05DigitalSignature
+	{"aaaaaaaaaaaaaaaaaaaaaa", "ZZZZZZZZZZZZZZZZZZZZZZ", "\x05msidigitalsignatureey", "\x05MSIDIGITALSIGNATUREEW"}, // 22 units: neighbours of \x05MsiDigitalSignatureEx
+	{"ThirtyOneCharactersLongName-001", "thirtyonecharacterslongname-000", "THIRTYONECHARACTERSLONGNAME-002"},      // 31 units
 	{NameStringData, NameStringPool, NameColumns, NameValidation, NameSummary},
 	{"Été", "éta", "Eta"},
-	{NameSig, NameSigEx, "Data"}, // already carries both signature streams
+	{NameSig, NameSigEx, "Data"},    // already carries both signature streams
 	{NameSig, "Data", "abc", "ABD"}, // already carries a non-extended signature
 }
 
